@@ -154,7 +154,7 @@ def cc_tables():
 class CodecPairs(Stream):
     name = "codec-pairs"
 
-    CODECS = ["quote", "list", "set", "dict", "options", "etag", "etags", "range", "crange", "age", "cc", "csp", "auth", "www", "date", "dateaware", "ifrange"]
+    CODECS = ["quote", "list", "set", "dict", "options", "etag", "etags", "range", "crange", "age", "cc", "csp", "auth", "www", "date", "dateaware", "ifrange", "etags-text", "list-text"]
 
     corpus = [
         {"codec": "quote", "v": hs(v), "allow": a}
@@ -199,6 +199,12 @@ class CodecPairs(Stream):
     ] + [
         {"codec": "ifrange", "etag": opt(hs, e), "t": t}
         for e, t in [("abc", None), (None, 63839700306), (None, None), ("Thu, 01 Jan 2026 00:00:00 GMT", None), ("", None), ("W/x", None), ("a b", None), ("1 Jan 2026 00:00", None), ("Thu, 01 Jan 2026 00:00:00 +0000", None)]
+    ]
+
+    corpus = corpus + [
+        {"codec": c, "h": hs(h)}
+        for c in ("etags-text", "list-text")
+        for h in ["", "a", '"a"', 'a"b', 'a"', '"a', '"a" x"', 'W/"a", b , "c"', "W/", "w/x", ",", " , a ,", '"a", "b"x, c', '""', "*", "*, a", 'a, *', '"a\\"', "a\xa0,\xa0b", 'W/"a"b', '"a",b"', '"a" ,b"']
     ]
 
     def cases(self, rng, tier):
@@ -322,6 +328,9 @@ class CodecPairs(Stream):
                 d = 28
             off = rng.choice([None, 0, rng.randrange(-86399, 86400), 60 * rng.randrange(-1439, 1440), 3600 * rng.randrange(-14, 15)])
             return {"codec": codec, "c": [y, mo, d, rng.randrange(0, 24), rng.randrange(0, 60), rng.randrange(0, 60)], "off": off}
+        if codec in ("etags-text", "list-text"):
+            toks = ['"', '"', ",", ", ", " ", "W/", "w/", "a", "b", "*", "\\", '\\"', "x y", "\xa0", "\u00e9", ";", "="]
+            return {"codec": codec, "h": hs("".join(rng.choice(toks) for _ in range(rng.randrange(0, 9))))}
         if codec == "ifrange":
             if rng.random() < 0.5:
                 return {"codec": codec, "etag": hs(rand_text(rng, 5).replace('"', "")), "t": None}
@@ -444,6 +453,14 @@ class CodecPairs(Stream):
             p = http.parse_date(w)
             cp = "~" if p is None else str(to_seconds(p))
             return w, cp, p, cp
+        if codec == "etags-text":
+            p = http.parse_etags(unhs(case["h"]))
+            p2 = http.parse_etags(p.to_header())
+            return unhs(case["h"]), self.c_etags_obj(p) + "#" + self.c_etags_obj(p2), p, self.c_etags_obj(p2)
+        if codec == "list-text":
+            p = http.parse_list_header(unhs(case["h"]))
+            p2 = http.parse_list_header(http.dump_header(p))
+            return unhs(case["h"]), c_list(p) + "#" + c_list(p2), p, c_list(p2)
         if codec == "ifrange":
             ir = self.mk_ifrange(case)
             w = ir.to_header()
@@ -524,6 +541,10 @@ class CodecPairs(Stream):
                 if unhs(ty) != unhs(case["type"]).lower() or any(ord(c) > 0xFF for c in unhs(case["type"])):
                     return None
             return line("pair." + codec, ty, out_list(k + ":" + v for k, v in case["params"]), opt(hs, dec_opt(case["token"])))
+        if codec == "etags-text":
+            return line("nf.etags", case["h"])
+        if codec == "list-text":
+            return line("nf.list", case["h"])
         if codec == "date":
             return line("pair.date", case["t"])
         if codec == "dateaware":
@@ -531,6 +552,19 @@ class CodecPairs(Stream):
         return None  # ifrange: oracle only (parse_date on arbitrary text is Python's)
 
     def canon_model(self, case, out):
+        if case["codec"] == "list-text":
+            return case["h"] + "|" + out
+        if case["codec"] == "etags-text":
+            def srt(p):
+                parts = dict(x.split("=", 1) for x in p.split(";"))
+                dec = lambda s: [] if s == "[]" else [None if x == "~" else unhs(x) for x in s.split(",")]  # noqa: E731
+                key = lambda x: (x is None, x)  # noqa: E731
+                if parts["*"] == "1":
+                    return c_etags([], [], True)
+                return c_etags(sorted(set(dec(parts["S"])), key=key), sorted(set(dec(parts["W"])), key=key), False)
+
+            a, _, b = out.partition("#")
+            return case["h"] + "|" + srt(a) + "#" + srt(b)
         if case["codec"] == "etags" and "|" in out:
             w, _, p = out.partition("|")
             try:
@@ -630,6 +664,8 @@ class CodecPairs(Stream):
             except (OverflowError, ValueError):
                 return False
             return 1000 <= u.year <= 9999
+        if codec in ("etags-text", "list-text"):
+            return False  # correspondence only (arbitrary text is outside the property's quantifier)
         if codec == "ifrange":
             if case["etag"] not in (None, "~"):
                 e = unhs(case["etag"])
